@@ -204,6 +204,13 @@ NewVV(lens) ==
                  /\ AddObj(OObj("vv", Len(lmem) + 1, 0, k, k, L))
          /\ nextb' = nextb + L
          /\ PNew("vv", [j \in 1..L |-> nextb + j], 0)
+\* func NewView(size int), filled by the caller: a View over its own array of exactly n bytes
+NewView(n) == /\ Len(obj) = 0
+              /\ mem' = Append(mem, [j \in 1..n |-> nextb + j])
+              /\ AddObj(OObj("view", Len(mem) + 1, 0, n, n, 0))
+              /\ nextb' = nextb + n
+              /\ UNCHANGED lmem
+              /\ PNew("view", [j \in 1..n |-> nextb + j], 0)
 \* func NewPrependable(size int)
 NewPrep(r) == /\ Len(obj) = 0
               /\ mem' = Append(mem, Zeros(r))
